@@ -118,6 +118,7 @@ fn singles(ls: &[Line]) -> Vec<Dev> {
         if li > 0 {
             d.push(Dev::TrailingComment(li, " # c"));
             d.push(Dev::TrailingComment(li, "#end loop"));
+            d.push(Dev::TrailingComment(li, "# a\\"));
             for (ti, t) in l.toks.iter().enumerate() {
                 if is_lit(t) {
                     for r in respellings(t) {
